@@ -76,6 +76,10 @@ CHECKS = {
             "per-method state contracts on the real PersistenceLandscaper.fit (ghost user-fixed flags, five pre-states) / transform, a relational script contract for PersistenceImager.fit (two pre-states, same data => same post-state), fit_transform vs fit;transform as a script contract, imager.transform element-wise mapping; run-time random call sequences against fresh transformers",
             "Mixed with a known finding: proved - imager fits forget the past, fit_transform equals fit then transform in state and images, transforms leave the fitted state untouched and map collections in order, landscaper fit honours user-fixed ends and learns min birth / max death on a fresh transformer. Refuted on the unchanged tree (KNOWN-FINDING): a second landscaper fit keeps the first fit's grid. Call sequences are sampled.",
             "D21 sklearn mixin, D24 deepcopy; induction over call sequences is a meta-argument; level is `other` because the refit obligations are refuted (known finding), so discharged < obligations"),
+    "C20": ("other",
+            "call-trace contracts on an abstract Axes/pyplot recorder for the real bottleneck_matching / wasserstein_matching (loop invariant over the ordered log of plot calls, enumeration facts), VCs from the AST; real Agg canvases with artists inspected for plot_diagrams, both matching plots and the 2-D landscape plots",
+            "Mixed: proved for all diagrams and all certificate-shaped matchings - exactly one ax.plot per row involving a point, in order, joining the two points or the point and its perpendicular foot ((b+d)/2,(b+d)/2) (NRA with h^2=1/2), the arg-max bottleneck row in the emphasised style, nothing drawn through pyplot's current axes, plot_diagrams invoked once on the same axes. plot_diagrams itself (scatter offsets, limits, infinity line, labels, legend) and the landscape plots are checked on real canvases only (bounded).",
+            "D22 matplotlib call -> artist; matching rows integer-valued and in range (C06); arithmetic definedness assumed; generator, models, contracts trusted"),
 }
 
 NOT_YET = "check not built yet in this session (planned per DESIGN.md section 5)"
